@@ -23,6 +23,11 @@ def pre_loop_state(sx, fn, loop):
     st = State({})
     for s in fn.body['body']:
         if s is loop:
+            if loop['k'] == 'For' and loop.get('init') is not None:
+                live, done = sx.exec(loop['init'], [st])
+                if len(live) != 1:
+                    raise Undecided('branching in the loop initialiser of ' + fn.q)
+                st = live[0]
             return st
         live, done = sx.exec(s, [st])
         if len(live) != 1:
@@ -493,10 +498,16 @@ def halley(prog, ctx):
         states, done = sx.exec(s, states)
     if not states:
         raise Undecided('no path reaches the Halley loop')
+    # the iterate, by role: the variable the function returns after the loop
+    after = fn.body['body'][fn.body['body'].index(loop) + 1:]
+    ret_ids = [strip_casts(s_['e']).get('id') for s_ in after if s_['k'] == 'Return' and s_.get('e') is not None and strip_casts(s_['e']).get('k') == 'Ref']
+    if len(ret_ids) != 1:
+        raise Undecided('the value returned after the Halley loop is not a single variable')
+    iterate_id = ret_ids[0]
     results = []
     for st in states[:4]:
         entry, cond, live, done, n0 = sx.loop_step(loop, st)
-        xs = [(k, v) for k, v in entry.items() if isinstance(v, Symbol) and str(v).startswith('x@')]
+        xs = [(k, v) for k, v in entry.items() if isinstance(v, Symbol) and k == iterate_id]
         if len(xs) != 1:
             raise Undecided('iterate not identified')
         kx, x = xs[0]
@@ -538,7 +549,7 @@ def halley(prog, ctx):
     # Halley step on the un-clamped path
     st = states[0]
     entry, cond, live, done, n0 = sx.loop_step(loop, st)
-    kx, x = [(k, v) for k, v in entry.items() if isinstance(v, Symbol) and str(v).startswith('x@')][0]
+    kx, x = [(k, v) for k, v in entry.items() if isinstance(v, Symbol) and k == iterate_id][0]
     P = Function(L + 'GammaP', real=True)
     dP = sp.exp(-x + (a - 1) * sp.log(x) - Function(L + 'GammaLn', real=True)(a))
     u = (P(x, a) - p) / dP
